@@ -267,6 +267,26 @@ def wfTok : XTok → Bool
 
 def wfToks (ts : List XTok) : Bool := ts.all wfTok
 
+/-! ## hypotheses of the theorems: grammar-level well-formedness of tokens, lexer contract on the stream shape -/
+
+/-- token contents according to the grammar (text: `CharData` with references; attribute: quoted `AttValue`;
+CDATA: legal characters) -/
+def WfTokP : XTok → Prop
+  | .text d => WfText d
+  | .attr _ v => WfAttrVal v
+  | .cdata _ t => WfCDataText t
+  | _ => True
+
+/-- Contract of the dependency lexer on the shape of the stream: `>` and `/>` only follow a start tag and its
+attributes (argument: "inside a start tag"). -/
+def lexShape : Bool → List XTok → Bool
+  | _, [] => true
+  | _, .startTag _ :: r => lexShape true r
+  | tg, .attr _ _ :: r => lexShape tg r
+  | tg, .startTagClose :: r => tg && lexShape false r
+  | tg, .startTagCloseVoid :: r => tg && lexShape false r
+  | _, _ :: r => lexShape false r
+
 /-! ## triggers of the known findings (narrow syntactic predicates on the input tokens) -/
 
 def hasCdEndD : List Ev → Bool
@@ -317,12 +337,14 @@ def trigPiData : Bool → List XTok → Bool
   | inPI, .attr _ v :: r => (inPI && v.isEmpty) || trigPiData inPI r
   | inPI, _ :: r => trigPiData inPI r
 
+def isCloseWsEnd : XTok → List XTok → Bool
+  | .startTagClose, .text d :: .endTag _ _ :: _ => d.all isS
+  | _, _ => false
+
 /-- K-C06-6: with KeepWhitespace an element whose content is white space only is collapsed to `<a/>` -/
 def trigKeepEmpty (keep : Bool) : List XTok → Bool
   | [] => false
-  | .startTagClose :: .text d :: .endTag x y :: r =>
-    (keep && d.all isS) || trigKeepEmpty keep (.endTag x y :: r)
-  | _ :: r => trigKeepEmpty keep r
+  | t :: r => (keep && isCloseWsEnd t r) || trigKeepEmpty keep r
 
 def triggers (keep : Bool) (ts : List XTok) : List String :=
   (if trigCdEnd ts then ["cdEnd"] else []) ++
@@ -356,7 +378,7 @@ def projChars : List CEv → List CEv
 /-- failing clauses of the property for input tokens `i` and output tokens `o` (empty = holds):
 `wf` (an emitted text / attribute value is not well-formed), `struct`, `attr`, `pi`, `doctype`, `chars` -/
 def holds (keep : Bool) (i o : List XTok) : List String :=
-  if !wfToks i then [] else
+  if !wfToks i || !lexShape false i then [] else
   let ci := canon keep (infoset i)
   let co := canon keep (infoset o)
   let isAttr : Mark → Bool := fun m => match m with | .attr _ _ => true | _ => false
